@@ -5,11 +5,15 @@ From Coq Require Import ZArith NArith List Bool.
 Import ListNotations.
 From PV Require Import Marker.Access Marker.Authz Proofs.MarkerAccessProofs.
 From PV Require Import Marker.AccessTable Gen.GenMarkerAccess Proofs.MarkerAccessGenProofs.
+From PV Require Import Marker.AuthzSeq Marker.AccessHist.
+From PV Require Import Proofs.MarkerTransferProofs Proofs.AuthzSeqProofs Proofs.AccessHistProofs.
 Open Scope Z_scope.
 
 (** Every administration endpoint (mint, burn, withdraw, finalize, activate, cancel, delete, add /
     delete access, denom metadata, account data, deny list, required attributes, fee allowance,
-    net asset values), for EVERY marker status, type, set of rights of the caller (any bit mask,
+    net asset values, and the eight governance-only endpoints: forced-transfer flag, supply
+    increase / decrease, set / remove administrator, change status, withdraw escrow, denom metadata
+    proposal), for EVERY marker status, type, set of rights of the caller (any bit mask,
     not only the 256 meaningful ones), manager / governance / governance-control / supply flags
     and activation history satisfying the lifecycle invariant [cfg_wfb] (an activated marker has no
     manager; see [C12_manager_gone_after_activation]): when the code performs the operation, the
@@ -56,7 +60,7 @@ Proof. exact zero_supply_prefix_refuted. Qed.
 Print Assumptions C12_zero_supply_prefix_refuted.
 
 (** The same, by exhaustive computation over the stated finite domain
-    [all_cfgs] = 5 statuses x 2 types x 256 right masks x 2^6 flags, and all 15 endpoints. *)
+    [all_cfgs] = 5 statuses x 2 types x 256 right masks x 2^6 flags, and all 23 endpoints. *)
 Theorem C12_table_exhaustive :
   forallb (fun c => forallb (table_ok c) all_ops) all_cfgs = true.
 Proof. exact table_ok_everywhere. Qed.
@@ -66,7 +70,7 @@ Print Assumptions C12_table_exhaustive.
     translate/markeraccess reads off x/marker/keeper/marker.go and msg_server.go (per method: the
     Access_* constants passed to an access predicate, manager / authority / whole-supply /
     any-grant guards, and every other mention of an Access_* constant as an "unrecognised" row) is
-    the documented one; the rows of the fifteen endpoints are computed from [documented]. *)
+    the documented one; the rows of the twenty-three endpoints are computed from [documented]. *)
 Theorem C12_generated_access_table : generated_access_table = documented_access_table.
 Proof. exact generated_table_is_documented. Qed.
 Print Assumptions C12_generated_access_table.
@@ -77,31 +81,94 @@ Theorem C12_noop_is_cancel_of_cancelled : forall c o,
 Proof. exact noop_only_cancel_of_cancelled. Qed.
 Print Assumptions C12_noop_is_cancel_of_cancelled.
 
-(** MsgTransferRequest.  Whenever a transfer goes through: the marker is an active restricted
-    marker, the admin holds TRANSFER or FORCE_TRANSFER (and DEPOSIT on a restricted destination
-    marker), the destination is not blocked; and it went through in exactly one of three ways:
-    out of the admin's own account; under a MarkerTransferAuthorization of the source that accepts
-    the message (the grant stored afterwards is the reduced one); or as a forced transfer, which
-    needs a marker allowing forced transfers, FORCE_TRANSFER on the admin, and a source that is
-    neither a module account nor a smart-contract account. *)
+(** MsgTransferRequest, as an EQUIVALENCE.  A transfer goes through, in the way [p] and leaving the
+    source's grant [g'] behind, exactly when: the marker is an active restricted marker, the
+    administrator holds TRANSFER or FORCE_TRANSFER (and DEPOSIT on a restricted destination marker,
+    whatever that marker's status), the destination is not blocked, the amount is not negative and
+    covered by the source, and one of
+      - the source is the administrator's own account;
+      - a forced transfer: the marker allows forced transfers, the administrator holds FORCE_TRANSFER
+        (TRANSFER is not needed) and the source may be forced -- a group policy, a missing account,
+        an account that has signed, a marker account (the marker's own included: no WITHDRAW is
+        asked), a market account; by [C12_forced_never_from_module_or_contract] never an account
+        of module / contract shape; the source's grant is untouched;
+      - otherwise (the marker does not allow forced transfers or the administrator lacks
+        FORCE_TRANSFER): a MarkerTransferAuthorization of the source to the administrator that
+        accepts the message; the grant stored afterwards is the reduced one. *)
 Theorem C12_forced_transfer_rules : forall x p g',
-  transfer x = Some (p, g') ->
-  x_status x = SActive /\ x_type x = TRestricted /\
-  (has RTransfer (x_rights x) || has RForceTransfer (x_rights x)) = true /\
-  dest_marker_ok (x_dest x) = true /\ dest_blocked (x_dest x) = false /\
-  0 <= m_amt (x_msg x) <= x_frombal x /\
-  match p with
-  | PSelf => x_self x = true /\ g' = x_grant x
-  | PForced =>
-      x_self x = false /\ x_forced x = true /\ has RForceTransfer (x_rights x) = true /\
-      can_force_transfer_from (x_from x) = true /\ module_or_contract_shape (x_from x) = false /\
-      g' = x_grant x
-  | PGrant =>
-      x_self x = false /\ (x_forced x && has RForceTransfer (x_rights x)) = false /\
-      exists g r, x_grant x = Some g /\ accept g (x_msg x) = Some r /\ g' = stored_after r
-  end.
-Proof. exact transfer_rules. Qed.
+  transfer x = Some (p, g') <->
+  (x_status x = SActive /\ x_type x = TRestricted /\
+   (has RTransfer (x_rights x) || has RForceTransfer (x_rights x)) = true /\
+   dest_marker_ok (x_dest x) = true /\ dest_blocked (x_dest x) = false /\
+   0 <= m_amt (x_msg x) <= x_frombal x /\
+   match p with
+   | PSelf => x_self x = true /\ g' = x_grant x
+   | PForced =>
+       x_self x = false /\ x_forced x = true /\ has RForceTransfer (x_rights x) = true /\
+       can_force_transfer_from (x_from x) = true /\ g' = x_grant x
+   | PGrant =>
+       x_self x = false /\ (x_forced x && has RForceTransfer (x_rights x)) = false /\
+       exists g r, x_grant x = Some g /\ accept g (x_msg x) = Some r /\ g' = stored_after r
+   end).
+Proof. exact transfer_iff. Qed.
 Print Assumptions C12_forced_transfer_rules.
+
+Theorem C12_forced_never_from_module_or_contract : forall x g',
+  transfer x = Some (PForced, g') ->
+  module_or_contract_shape (x_from x) = false /\ x_forced x = true /\
+  has RForceTransfer (x_rights x) = true /\ x_type x = TRestricted /\ x_status x = SActive.
+Proof. exact forced_transfer_summary. Qed.
+Print Assumptions C12_forced_never_from_module_or_contract.
+
+(** The receiving marker's STATUS does not lift the DEPOSIT requirement (transfers and withdrawals
+    alike); a check that only guarded ACTIVE receiving markers is refuted by a transfer into a
+    proposed restricted marker's account without DEPOSIT on it. *)
+Theorem C12_deposit_needed_whatever_the_recipient_status : forall x p g' st rs,
+  transfer x = Some (p, g') -> x_dest x = DMarker true st rs -> has RDeposit rs = true.
+Proof. exact deposit_needed_in_every_status. Qed.
+Print Assumptions C12_deposit_needed_whatever_the_recipient_status.
+
+Theorem C12_active_only_deposit_check_refuted : exists x p g' st rs,
+  x_dest x = DMarker true st rs /\ has RDeposit rs = false /\
+  transfer_gen2 dest_marker_ok_active_only accept x = Some (p, g') /\ transfer x = None.
+Proof. exact active_only_deposit_check_refuted. Qed.
+Print Assumptions C12_active_only_deposit_check_refuted.
+
+(** MsgWithdrawRequest with its recipient, as an equivalence: WITHDRAW on the (active) source
+    marker, DEPOSIT on a restricted recipient marker in whatever status, recipient not blocked. *)
+Theorem C12_withdraw_rules : forall c d,
+  withdraw_to c d = true <->
+  (has RWithdraw (c_rights c) = true /\ c_status c = SActive /\
+   dest_marker_ok d = true /\ dest_blocked d = false).
+Proof. exact withdraw_to_iff. Qed.
+Print Assumptions C12_withdraw_rules.
+
+(** GrantAllowance: the fee allowance is paid out of the MARKER's account; exactly ADMIN on the
+    marker is needed -- neither the manager, the governance account, the holder of the whole supply
+    nor any other right will do, in any status. *)
+Theorem C12_grant_allowance_needs_admin : forall c,
+  decide c OGrantAllowance = Done <-> has RAdmin (c_rights c) = true.
+Proof. exact grant_allowance_iff. Qed.
+Print Assumptions C12_grant_allowance_needs_admin.
+
+(** The governance-only endpoints: no set of rights stands in for the governance account. *)
+Theorem C12_governance_only_endpoints : forall c o,
+  gov_only o = true -> decide c o = Done -> c_gov c = true /\ c_govctl c = true.
+Proof. exact gov_only_needs_governance. Qed.
+Print Assumptions C12_governance_only_endpoints.
+
+(** Every rpc of the marker module's `service Msg` (read off tx.proto on every run) and every
+    exported method of its msgServer, with the guarded keeper methods each reaches, is one of the
+    documented endpoints: a new endpoint without a row breaks this.  Every operation of the
+    decision table is behind exactly one rpc, every guard row is in front of some rpc, and the row
+    in front of an administration endpoint is the one computed from its documented requirement. *)
+Theorem C12_every_endpoint_has_a_row :
+  generated_marker_rpcs = map ep_rpc documented_endpoints /\
+  generated_marker_endpoints = map (fun e => (ep_rpc e, ep_guards e)) documented_endpoints /\
+  forallb (endpoint_ok generated_access_table) documented_endpoints = true /\
+  endpoints_cover_ops = true /\ rows_all_reachable generated_access_table = true.
+Proof. exact every_endpoint_has_a_row. Qed.
+Print Assumptions C12_every_endpoint_has_a_row.
 
 Theorem C12_third_party_transfer_needs_grant_or_force : forall x p g',
   transfer x = Some (p, g') -> x_self x = false ->
@@ -134,6 +201,122 @@ Theorem C12_unfixed_accept_refuted : exists g0 bal ms,
 Proof. exact unfixed_accept_refuted. Qed.
 Print Assumptions C12_unfixed_accept_refuted.
 
+(** ** Histories of one grant with block time, expiration, re-grants and revocation
+    ([Marker/AuthzSeq.v]; both routes: the marker keeper's authz handler and authz MsgExec; the
+    administrator's rights and the marker's forced-transfer flag are arbitrary at every use).
+
+    An "issue" is what the granter signed last (the initial grant, replaced by every accepted
+    MsgGrant); [account] adds up, per denom, what went through under the current issue. *)
+
+(** Per denom, what went through under the current issue never exceeds THAT issue's limit, over
+    every history: a re-grant while the old grant is partly used REPLACES the limit (nothing of
+    the old one is carried over), and uses after a revocation / expiry / exhaustion add nothing. *)
+Theorem C12_timed_grant_total_le_limit : forall r g0 e0 bal now ops d,
+  grant_valid g0 = true ->
+  let '(i, used) := account {| is_grant := g0; is_exp := e0 |} []
+        (fst (srun r {| ts_grant := Some {| tg_grant := g0; tg_exp := e0 |}; ts_bal := bal; ts_now := now |} ops)) in
+  0 <= amount_of d used <= amount_of d (g_limit (is_grant i)).
+Proof. exact timed_total_le_limit. Qed.
+Print Assumptions C12_timed_grant_total_le_limit.
+
+(** After every history: the stored grant, if any, is the current issue less what was used (limit
+    per denom), with the issue's allow list and the issue's EXPIRATION (uses change neither); and
+    once the issue is used up in every denom the grant is gone (deleted, not kept at zero). *)
+Theorem C12_grant_deleted_when_exhausted : forall r g0 e0 bal now ops,
+  grant_valid g0 = true ->
+  let run := srun r {| ts_grant := Some {| tg_grant := g0; tg_exp := e0 |}; ts_bal := bal; ts_now := now |} ops in
+  let '(i, used) := account {| is_grant := g0; is_exp := e0 |} [] (fst run) in
+  (forall tg, ts_grant (snd run) = Some tg -> stored_matches i used tg) /\
+  ((forall d, amount_of d used = amount_of d (g_limit (is_grant i))) -> ts_grant (snd run) = None).
+Proof. exact timed_stored_grant. Qed.
+Print Assumptions C12_grant_deleted_when_exhausted.
+
+(** No use consumes the grant after the expiration of the issue it runs under, and every such use
+    goes to an address of that issue's allow list (when it has one). *)
+Theorem C12_no_use_after_expiry : forall r g0 e0 bal now ops,
+  grant_valid g0 = true ->
+  uses_ok {| is_grant := g0; is_exp := e0 |}
+    (fst (srun r {| ts_grant := Some {| tg_grant := g0; tg_exp := e0 |}; ts_bal := bal; ts_now := now |} ops)) = true.
+Proof. exact timed_uses_ok. Qed.
+Print Assumptions C12_no_use_after_expiry.
+
+(** A third-party use that went through WITHOUT consuming the grant was a forced transfer: keeper
+    route, marker allowing forced transfers, administrator holding FORCE_TRANSFER. *)
+Theorem C12_use_without_grant_is_forced : forall r ops s,
+  forallb (other_use_ok r) (fst (srun r s ops)) = true.
+Proof. exact srun_other_uses. Qed.
+Print Assumptions C12_use_without_grant_is_forced.
+
+(** Writing the reduced grant back WITHOUT its expiration (authzHandler passing nil to SaveGrant)
+    breaks it: after one partial use the grant never expires. *)
+Theorem C12_nil_expiration_refuted :
+  let s0 := {| ts_grant := Some {| tg_grant := nil_exp_witness_grant; tg_exp := Some 100 |};
+               ts_bal := [(1%N, 50)]; ts_now := 0 |} in
+  let i0 := {| is_grant := nil_exp_witness_grant; is_exp := Some 100 |} in
+  uses_ok i0 (fst (srun_nil_exp ViaKeeper s0 nil_exp_witness_ops)) = false /\
+  map se_res (fst (srun_nil_exp ViaKeeper s0 nil_exp_witness_ops)) = [UGrant; UOther; UGrant] /\
+  uses_ok i0 (fst (srun ViaKeeper s0 nil_exp_witness_ops)) = true /\
+  map se_res (fst (srun ViaKeeper s0 nil_exp_witness_ops)) = [UGrant; UOther; URefused].
+Proof. exact nil_expiration_refuted. Qed.
+Print Assumptions C12_nil_expiration_refuted.
+
+(** ** Histories of calls on TWO markers whose access lists change ([Marker/AccessHist.v]). *)
+
+(** Over every history (AddAccess / DeleteAccess, Set- / RemoveAdministrator proposals, status
+    transitions and every other endpoint, on either marker, by anybody): every call that is let
+    through is justified by the rights the caller holds ON THE MARKER THE CALL NAMES at that very
+    moment, or by a documented alternative. *)
+Theorem C12_history_calls_need_rights_on_the_named_marker : forall ops s,
+  hwfb s = true -> forallb justified (fst (hrun s ops)) = true.
+Proof. exact hrun_justified. Qed.
+Print Assumptions C12_history_calls_need_rights_on_the_named_marker.
+
+(** Non-interference between markers: after any history, marker [w] is what the calls naming [w]
+    alone would have made of it, and those calls have the same outcomes: rights granted on the
+    other marker (and its status) are of no use on this one. *)
+Theorem C12_rights_do_not_cross_markers : forall w ops s,
+  get w (snd (hrun s ops)) = get w (snd (hrun s (filter (on_marker w) ops))) /\
+  map he_out (filter (fun e => on_marker w (he_op e)) (fst (hrun s ops))) =
+  map he_out (fst (hrun s (filter (on_marker w) ops))).
+Proof. exact hrun_projection. Qed.
+Print Assumptions C12_rights_do_not_cross_markers.
+
+(** Access changes take effect at once.  After an accepted AddAccess (or SetAdministrator) the
+    target's rights on that marker are the union of what it had and what was granted, nobody
+    else's change; after an accepted DeleteAccess (or RemoveAdministrator) the target holds nothing,
+    and its very next call on that marker is let through only by a documented alternative. *)
+Theorem C12_granted_rights_hold_at_once : forall s o s' a e,
+  hstep s o = (s', Done) -> is_add (ho_op o) = true ->
+  c_rights (cfg_of (get (ho_on o) s') a e) =
+  if N.eqb a (ho_target o)
+  then N.lor (c_rights (cfg_of (get (ho_on o) s) a e)) (ho_mask o)
+  else c_rights (cfg_of (get (ho_on o) s) a e).
+Proof. exact added_rights_hold_at_once. Qed.
+Print Assumptions C12_granted_rights_hold_at_once.
+
+Theorem C12_revoked_rights_stop_at_once : forall s o s' o2 s2,
+  hwfb s = true -> hstep s o = (s', Done) -> is_del (ho_op o) = true ->
+  ho_on o2 = ho_on o -> ho_caller o2 = ho_target o -> hstep s' o2 = (s2, Done) ->
+  c_rights (cfg_of (get (ho_on o2) s') (ho_caller o2) (ho_env o2)) = 0%N /\
+  let m := get (ho_on o2) s' in
+  via_alternative (cfg_of m (ho_caller o2) (ho_env o2)) (documented (ho_op o2) (mk_status m) (mk_type m)) = true.
+Proof. exact revoked_rights_summary. Qed.
+Print Assumptions C12_revoked_rights_stop_at_once.
+
+(** The lifecycle invariant holds along every such history (an activated marker has no manager),
+    so "manager" keeps meaning "manager of a marker that was never active". *)
+Theorem C12_history_keeps_manager_invariant : forall ops s,
+  hwfb s = true -> hwfb (snd (hrun s ops)) = true.
+Proof. exact hrun_wf. Qed.
+Print Assumptions C12_history_keeps_manager_invariant.
+
+(** Manager semantics end at activation, along every history: no call on a marker that has been
+    active is decided with "the caller is the manager". *)
+Theorem C12_no_manager_once_activated : forall ops s,
+  hwfb s = true -> forallb no_manager_once_activated (fst (hrun s ops)) = true.
+Proof. exact hrun_no_manager_after_activation. Qed.
+Print Assumptions C12_no_manager_once_activated.
+
 (** Non-vacuity: a holder of DELETE cancels an active marker; a grant of 10 with allow list [1] is
     used for 3 + 3, refuses address 2 and an overdraw, and is deleted by the last 4; a forced
     transfer out of a signed account goes through and one out of a module account does not. *)
@@ -149,4 +332,26 @@ Example C12_witness :
                     x_msg := {| m_to := 9%N; m_denom := 1%N; m_amt := 5 |}; x_frombal := 50 |} in
    transfer (x {| a_group := false; a_exists := true; a_seq := 4; a_marker := false; a_market := false |}) = Some (PForced, None) /\
    transfer (x {| a_group := false; a_exists := true; a_seq := 0; a_marker := false; a_market := false |}) = None).
+Proof. vm_compute. repeat split. Qed.
+
+(** Non-vacuity of the history theorems.  A grant of 10 (expiring at 100) is used for 3, re-granted
+    as 5 while partly used (the limit is REPLACED: 7 + 5 is never available), used for 5 -- gone --,
+    then refused; a second grant expires between two uses.  On two markers: address 2 is granted
+    MINT on marker A by A's manager, mints on A at once, is refused on marker B, is revoked and
+    refused on A at once. *)
+Example C12_witness_histories :
+  (let g a := {| g_limit := [(1%N, a)]; g_allow := [] |} in
+   let u a := SUse {| m_to := 7%N; m_denom := 1%N; m_amt := a |} 64%N false in
+   let s0 := {| ts_grant := Some {| tg_grant := g 10; tg_exp := Some 100 |}; ts_bal := [(1%N, 50)]; ts_now := 0 |} in
+   let '(tr, s) := srun ViaKeeper s0 [u 3; SGrant (g 5) (Some 200); u 6; u 5; u 1; SGrant (g 4) (Some 300); u 1; STick 400; u 1] in
+   map se_res tr = [UGrant; UOther; URefused; UGrant; URefused; UOther; UGrant; UOther; URefused] /\
+   account {| is_grant := g 10; is_exp := Some 100 |} [] tr = ({| is_grant := g 4; is_exp := Some 300 |}, [(1%N, 1)])) /\
+  (let m mgr := {| mk_status := SProposed; mk_type := TRestricted; mk_manager := Some mgr; mk_access := [];
+                   mk_govctl := true; mk_activated := false |} in
+   let e := {| e_gov := false; e_allsupply := false; e_supply_zero := false |} in
+   let call w c o t k := {| ho_on := w; ho_caller := c; ho_op := o; ho_target := t; ho_mask := k; ho_env := e |} in
+   let '(tr, s) := hrun {| h_a := m 1%N; h_b := m 3%N |}
+        [call MA 1%N OAddAccess 2%N 1%N; call MA 2%N OMint 0%N 0%N; call MB 2%N OMint 0%N 0%N;
+         call MA 1%N ODeleteAccess 2%N 0%N; call MA 2%N OMint 0%N 0%N] in
+   map he_out tr = [Done; Done; Denied; Done; Denied] /\ hwfb s = true)%N.
 Proof. vm_compute. repeat split. Qed.
